@@ -102,7 +102,7 @@ def register(reg):
   c.ensures('otherwise_killed', 'implies(self._phase_execution_outcome is None and not alive(self), '
             'isinstance(result.phase_result, threads.ThreadTerminationError))')
   c.ensures('fresh_result_unless_stored', 'implies(self._phase_execution_outcome is None, is_fresh(result))')
-  c.modifies('self._phase_execution_outcome', 'threading.Thread.alive', 'event.flag')
+  c.modifies('self._phase_execution_outcome', 'threading.Thread.alive', 'self._killed.flag')
   c.loop('while time.monotonic() < deadline',
          inv=[('a_stored_outcome_is_valid', 'self._phase_execution_outcome is None or (self._phase_execution_outcome.phase_result is not None and (not self._phase_execution_outcome.is_fail_subtest or self._subtest_rec is not None))')], modifies=['self._phase_execution_outcome', 'threading.Thread.alive'])
 
@@ -114,7 +114,7 @@ def register(reg):
 
   c = reg.contract('openhtf/util/threads.py', 'KillableThread.kill', props=['C12'])
   c.ensures('kill_flag_set', 'self._killed.is_set()')
-  c.modifies('event.flag')
+  c.modifies('self._killed.flag')
   c.trusted('verified under C12 (kill/run handshake); here only that it sets the kill flag and nothing else visible')
 
 
@@ -353,7 +353,7 @@ def register_executor(reg):
   c.ensures('fail_subtest_only_in_subtest', 'implies(result[0].is_fail_subtest, subtest_rec is not None)')
   c.ensures('phase_slot_released', 'self.test_state.running_phase_state is None')
   c.modifies('*user', 'list(%s)' % records, 'self.test_state.running_phase_state', 'self.test_state._running_test_api',
-             'self._current_phase_thread', 'event.flag', 'threading.Thread.alive')
+             'self._current_phase_thread', 'threading.Thread.alive')
 
   c = reg.contract(PE, 'PhaseExecutor.skip_phase', props=['C05', 'C02'], name='PhaseExecutor.skip_phase[verify]', callsite=True)
   c.param('phase_desc', 'ref:PhaseDescriptor').param('subtest_rec', 'opt:ref:SubtestRecord')
@@ -399,7 +399,7 @@ def register_repeat(reg):
   # the unconditional clause is expected to fail on the pinned tree (known finding, reproduced natively).
   c.ensures('ERROR_record_means_terminal_result', new_err.format(r=records, po=PO, concl='result[0].is_terminal'))
   c.modifies('*user', 'list(%s)' % records, 'self.test_state.running_phase_state', 'self.test_state._running_test_api',
-             'self._current_phase_thread', 'event.flag', 'threading.Thread.alive')
+             'self._current_phase_thread', 'threading.Thread.alive')
   c.loop('while not self._stopping.is_set()',
          inv=[('count_in_range', '1 <= repeat_count and repeat_count <= %s and repeat_limit == %s' % (limit, limit)),
               ('one_invocation_per_round', "ghost('body_starts') <= old(ghost('body_starts')) + repeat_count - 1"),
@@ -409,5 +409,5 @@ def register_repeat(reg):
                'forall_int(lambda j: implies(old(len({r})) <= j and j < len({r}), {r}[j].outcome is not {po}.ERROR)))'.format(r=records, po=PO)),
               ('phase_slot_released', 'self.test_state.running_phase_state is None')],
          modifies=['*user', 'list(%s)' % records, 'self.test_state.running_phase_state', 'self.test_state._running_test_api',
-                   'self._current_phase_thread', 'event.flag', 'threading.Thread.alive'],
+                   'self._current_phase_thread', 'threading.Thread.alive'],
          vars={'repeat_count': 'int', 'is_last_repeat': 'bool'})
